@@ -1005,6 +1005,45 @@ def slot_bounds(run: Run, rule: str, prefixes: Sequence[str], floor: int = 1) ->
     run.sites(loops_n + cmp_n, floor, "slot-id bounds")
 
 
+_SLOT_STATE = re.compile(r"slot_(live|occupied|constructed)")
+
+
+def membership_scans(run: Run, rule: str, table: Sequence[Tuple[str, str, Optional[str], str]]) -> None:
+    """K4 table of the scans over slot ids that enumerate the CURRENT members of a keyed collection.  A slot is `occupied` / `constructed` from its
+    insertion until the PHYSICAL erase, which happens lazily at the next mutation; it is `live` only while the key is a member.  A scan that builds,
+    compares or drops per-key state for the current key set must therefore filter with slot_live: with slot_occupied it also visits keys that were
+    removed in the previous cycle (ghost children; a removal applied to the slot's next tenant).  Each row (file, function, class, why) was confirmed
+    by reading; the rule requires every counted loop over a slot capacity in that function to test slot_live(loop variable) and none of the weaker
+    states on it."""
+    n = 0
+    for rel, name, cls, why in table:
+        fds = [f for f in run.tree.funcs(rel, name, cls) if f.body is not None]
+        if not fds:
+            raise AnalysisError("anchor-vanished", f"function {name} not found in {rel}")
+        scans = []
+        for fd_ in fds:                                     # overloads: the forwarding ones have no scan
+            fa = parse(run, fd_)
+            cn = aliases_of(fa)
+            for l in loops(fa):
+                if not isinstance(l, C.For):
+                    continue
+                sh = loop_shape(l, cn)
+                if "slot_capacity(" in (sh.get("cond_r") or "") and sh.get("var"):
+                    scans.append((l, sh["var"], fa, cn))
+        run.sites(len(scans), 1, f"{name} slot scans")
+        for l, v, fa, cn in scans:
+            tests = {_SLOT_STATE.search(callee_name(c)).group(0) for c in calls(l.body)
+                     if _SLOT_STATE.search(callee_name(c) or "") and any(cn(a) == v for a in c.args)}
+            n += 1
+            run.count(1, f"{rule}.scan")
+            if tests != {"slot_live"}:
+                run.finding(rule, f"{name}:membership-scan-filter:{'+'.join(sorted(tests)) or 'none'}",
+                            f"{fa.fd.qual}: the scan over slot ids `{v}` enumerates current members ({why}) and must filter with slot_live({v}); it tests "
+                            f"{sorted(tests) or 'nothing'}: a slot that is only pending its physical erase (key removed in the previous cycle) is treated as a member",
+                            loc=fa.loc(l))
+    run.sites(n, len(table), "membership scans")
+
+
 def share(run: Run, rule: str, module, src_rules: Sequence[str], prefix: bool = False) -> None:
     """Re-evaluate rule instances that belong to another property under `rule` of this property (the same function is looked at by
     several properties; each attributes a break to itself).  Runs the other module's check in a quiet sub-run and copies the findings
